@@ -523,6 +523,10 @@ class ExprMixin(object):
                 return
             except KeyError:
                 raise Unsupported('class attribute %s.%s at line %s' % (b.py.name, attr, line))
+        if isinstance(b, ConstV) and isinstance(b.py, ModuleHandle) and b.py.name == 'sys' and attr == 'version_info':
+            import sys as _sys
+            yield st, ConstV(tuple(_sys.version_info[:3]))      # the interpreter the repository runs on
+            return
         if isinstance(b, ConstV) and isinstance(b.py, ModuleHandle):
             yield st, FuncV('%s.%s' % (b.py.name, attr), ('modfn', b.py.name, attr))
             return
